@@ -94,6 +94,9 @@ fn run16v(toks: &[&str], wk: &mut Wakers, out: &mut String, mut tok_end: impl Fn
     use futures_sink::Sink;
     use std::future::Future;
     let (tx, rx) = channel::<u64>();
+    // a second channel: in `sink` mode every other sender is not dropped but re-pointed to it with `Clone::clone_from`, which for
+    // the channel under test is the same as dropping it
+    let (scratch_tx, _scratch_rx) = channel::<u64>();
     let mut senders: Vec<Option<Sender<u64>>> = vec![Some(tx)];
     let mut rx: Option<Receiver<u64>> = Some(rx);
     for (k, t) in toks.iter().enumerate() {
@@ -152,6 +155,11 @@ fn run16v(toks: &[&str], wk: &mut Wakers, out: &mut String, mut tok_end: impl Fn
                                 let mut cx = Context::from_waker(&w);
                                 if !matches!(Pin::new(senders[i].as_mut().unwrap()).poll_close(&mut cx), Poll::Ready(Ok(()))) {
                                     out.push_str("?poll-close:");
+                                }
+                            }
+                            if sink && k % 2 == 0 {
+                                if let Some(sd) = senders[i].as_mut() {
+                                    sd.clone_from(&scratch_tx);
                                 }
                             }
                             drop(senders[i].take());
